@@ -173,6 +173,168 @@ fn manual_call_g(gen: &mut SplitMix64, g: &mut G) {
     emit(c > before.cutoff, &format!("setcut {} {} {}", c, before.cutoff, bits(&before.occ)), &format!("{} {} {}", after.cutoff, after.len, after.n), Some(manual_oracle(if trait_call { "set_op_cutoff" } else { "set_cutoff" }, c, &before, &after)));
 }
 
+// ---------------------------------------------------------------------------------------------
+// Copies of a running sampler: `clone()` (both samplers), serde round trip of the sampler with its
+// (serialisable) rng (both samplers), and the RNG-less `SerializeQmcGraph` + `into_qmc(rng)` form (Ising).
+// Oracle: the copy reports the SAME cutoff as the original (never recomputed from n, never the constructor
+// default), same container length, same occupied slots, same n; afterwards the usual invariants on the copy
+// and on the original (both keep stepping).
+// ---------------------------------------------------------------------------------------------
+type SG = qmc::sse::qmc_ising::serialization::SerializeQmcGraph<qmc::sse::fast_ops::FastOps>;
+
+fn emit_copy(how: &str, before: &Obs, after: &Obs, nmax: usize) {
+    let mut o = obj_oracle(how, before.cutoff, after);
+    if o.is_ok() && after.cutoff != before.cutoff {
+        o = Err(format!("{}: cutoff changed across the copy {} -> {} (n = {})", how, before.cutoff, after.cutoff, after.n));
+    }
+    if o.is_ok() && (after.len != before.len || after.occ != before.occ || after.n != before.n) {
+        o = Err(format!("{}: operators / container changed across the copy (len {} -> {}, n {} -> {})", how, before.len, after.len, before.n, after.n));
+    }
+    stat(&format!("copy_{}", how), 1);
+    if before.n < nmax {
+        stat(&format!("copy_{}_with_n_below_its_maximum", how), 1);
+    }
+    if before.len < before.cutoff {
+        stat(&format!("copy_{}_right_after_growth", how), 1);
+    }
+    emit(before.n > 0, &format!("copy {} {} {}", how, before.cutoff, bits(&before.occ)), &format!("{} {} {}", after.cutoff, after.len, after.n), Some(o));
+}
+
+/// Replace `g` by a copy (or keep it and step the copy on the side). `nmax` = largest n seen so far.
+fn copy_g(gen: &mut SplitMix64, g: G, beta: f64, nmax: usize, tr: &mut Tracker) -> G {
+    let before = obs_g(&g);
+    match gen.below(3) {
+        0 => {
+            let c = g.clone();
+            emit_copy("ising-clone", &before, &obs_g(&c), nmax);
+            // continue with one of them, step the other one on the side
+            let (keep, mut side) = if gen.coin() { (g, c) } else { (c, g) };
+            for _ in 0..2 {
+                if !hist_step_g(&mut side, beta, "ising-copy-side", tr) {
+                    break;
+                }
+            }
+            keep
+        }
+        1 => {
+            let text = serde_json::to_string(&g).unwrap();
+            match serde_json::from_str::<G>(&text) {
+                Ok(mut c) => {
+                    emit_copy("ising-serde", &before, &obs_g(&c), nmax);
+                    let mut orig = g;
+                    let mut alive = true;
+                    for _ in 0..2 {
+                        if !hist_step_g(&mut orig, beta, "ising-copy-side", tr) {
+                            alive = false; // a caught panic leaves the sampler without state/manager: drop it
+                            break;
+                        }
+                    }
+                    if alive && gen.coin() {
+                        std::mem::swap(&mut c, &mut orig);
+                    }
+                    c
+                }
+                Err(e) => {
+                    emit(true, &format!("copy ising-serde {} {}", before.cutoff, bits(&before.occ)), "error", Some(Err(format!("restore failed: {}", e))));
+                    g
+                }
+            }
+        }
+        _ => {
+            // RNG-less snapshot form; consumes the sampler like the API does
+            let side = g.clone();
+            let (sg, rng): (SG, SplitMix64) = g.into();
+            let text = serde_json::to_string(&sg).unwrap();
+            match serde_json::from_str::<SG>(&text) {
+                Ok(sg2) => {
+                    let c = sg2.into_qmc(rng);
+                    emit_copy("ising-rngless", &before, &obs_g(&c), nmax);
+                    c
+                }
+                Err(e) => {
+                    emit(true, &format!("copy ising-rngless {} {}", before.cutoff, bits(&before.occ)), "error", Some(Err(format!("restore failed: {}", e))));
+                    side
+                }
+            }
+        }
+    }
+}
+
+fn copy_q(gen: &mut SplitMix64, q: Q, beta: f64, nmax: usize, tr: &mut Tracker) -> Q {
+    let before = obs_q(&q);
+    if gen.coin() {
+        let c = q.clone();
+        emit_copy("generic-clone", &before, &obs_q(&c), nmax);
+        let (keep, mut side) = if gen.coin() { (q, c) } else { (c, q) };
+        for _ in 0..2 {
+            if !hist_step_q(&mut side, beta, "generic-copy-side", tr) {
+                break;
+            }
+        }
+        keep
+    } else {
+        let text = serde_json::to_string(&q).unwrap();
+        match serde_json::from_str::<Q>(&text) {
+            Ok(mut c) => {
+                emit_copy("generic-serde", &before, &obs_q(&c), nmax);
+                let mut orig = q;
+                let mut alive = true;
+                for _ in 0..2 {
+                    if !hist_step_q(&mut orig, beta, "generic-copy-side", tr) {
+                        alive = false;
+                        break;
+                    }
+                }
+                if alive && gen.coin() {
+                    std::mem::swap(&mut c, &mut orig);
+                }
+                c
+            }
+            Err(e) => {
+                emit(true, &format!("copy generic-serde {} {}", before.cutoff, bits(&before.occ)), "error", Some(Err(format!("restore failed: {}", e))));
+                q
+            }
+        }
+    }
+}
+
+/// Run at large beta (the operator count and the cutoff grow), then at small beta (the count drops, the
+/// cutoff must stay): copies are taken in the second phase, where n is below its all-time maximum.
+fn run_beta_switch(gen: &mut SplitMix64, steps: usize, tr: &mut Tracker) {
+    let nv = gen.range(2, 5) as usize;
+    let edges = make_edges(gen, nv, true);
+    let gamma = *gen.pick(&[0.5, 1.0, 2.0]);
+    let c0 = 1 + gen.below(3) as usize;
+    let (b_cold, b_hot) = (*gen.pick(&[4.0, 8.0]), *gen.pick(&[0.25, 0.5]));
+    // Ising
+    let mut g = G::new_with_rng(edges.clone(), gamma, 0.0, c0, SplitMix64::new(gen.next()), None);
+    let mut nmax = 0;
+    for t in 0..steps {
+        let beta = if t < steps / 2 { b_cold } else { b_hot };
+        if t > steps / 2 && gen.chance(1, 3) {
+            g = copy_g(gen, g, beta, nmax, tr);
+        }
+        if !hist_step_g(&mut g, beta, "ising-cold-then-hot", tr) {
+            return;
+        }
+        nmax = nmax.max(QmcStepper::get_n(&g));
+    }
+    // generic (built directly and by conversion)
+    let js: Vec<f64> = (0..nv - 1).map(|_| 1.0).collect();
+    let mut q = if gen.coin() { make_generic(gen.next(), nv, gamma, &js) } else { G::new_with_rng(edges, gamma, 0.0, c0, SplitMix64::new(gen.next()), None).into_qmc() };
+    let mut nmax = 0;
+    for t in 0..steps {
+        let beta = if t < steps / 2 { b_cold } else { b_hot };
+        if t > steps / 2 && gen.chance(1, 3) {
+            q = copy_q(gen, q, beta, nmax, tr);
+        }
+        if !hist_step_q(&mut q, beta, "generic-cold-then-hot", tr) {
+            return;
+        }
+        nmax = nmax.max(QmcStepper::get_n(&q));
+    }
+}
+
 #[derive(Clone, Copy, Debug, PartialEq, Eq)]
 enum Mix {
     Plain,
@@ -234,10 +396,16 @@ fn run_ising(gen: &mut SplitMix64, steps: usize, init_cutoff_kind: usize, mix: M
         Mix::Plain => {}
     }
     let label = format!("ising-{:?}", mix).to_lowercase();
+    let mut nmax_seen = 0usize;
     for _ in 0..steps {
         if gen.chance(1, 6) {
             manual_call_g(gen, &mut g);
         }
+        if gen.chance(1, 8) {
+            nmax_seen = nmax_seen.max(QmcStepper::get_n(&g));
+            g = copy_g(gen, g, beta, nmax_seen, tr);
+        }
+        nmax_seen = nmax_seen.max(QmcStepper::get_n(&g));
         let before = obs_g(&g);
         let r = catch(|| {
             if mix == Mix::Split {
@@ -305,10 +473,15 @@ fn run_generic(gen: &mut SplitMix64, steps: usize, one_spin: bool, tr: &mut Trac
     stat(if loops { "generic_loops" } else { "generic_noloops" }, 1);
     stat(if heat { "generic_heatbath" } else { "generic_metropolis" }, 1);
     let use_parts = gen.coin();
+    let mut nmax_seen = 0usize;
     let label = format!("generic{}{}{}", if one_spin { "-1spin" } else { "" }, if loops { "-loop" } else { "" }, if heat { "-hb" } else { "" });
     for _ in 0..steps {
         if gen.chance(1, 4) {
             manual_call_q(gen, &mut q);
+        }
+        nmax_seen = nmax_seen.max(QmcStepper::get_n(&q));
+        if gen.chance(1, 8) {
+            q = copy_q(gen, q, beta, nmax_seen, tr);
         }
         let before = obs_q(&q);
         let r = catch(|| {
@@ -850,6 +1023,7 @@ fn main() {
         run_history_ising(&mut gen, steps, &mut tr);
         run_history_generic(&mut gen, steps, &mut tr);
         run_temperings(&mut gen, steps, &mut tr);
+        run_beta_switch(&mut gen, steps, &mut tr);
         if rep % 3 == 0 {
             run_tempering(&mut gen, false);
             run_tempering(&mut gen, true);
